@@ -313,7 +313,7 @@ func c06Assembly(c *Ctx) {
 		}
 		return false, false
 	})
-	off, _ := core.UnguardedSinks(fq, nameStore, g)
+	off, _ := core.UnguardedSinksLocal(fq, nameStore, g) // the temporary rename in getCNAMEWithIPs is a different effect, decided below
 	r.Check(ng > 0 && len(off) == 0, "C06-D3", "rename-only-for-cname-without-address", p.FnPos(fq), "the question is renamed only for a CNAME rewrite without addresses", "the question can be renamed outside the CNAME-only case", traceOf(p, off)...)
 
 	pa := p.Fn("(*dnsforward.Server).processFilteringAfterResponse")
@@ -540,7 +540,7 @@ func c06Table(c *Ctx) {
 	// initial table is normalised
 	pp := p.Fn("(*filtering.DNSFilter).prepareRewrites")
 	if pp != nil {
-		r.Check(len(core.CallsTo(pp, "(*filtering.LegacyRewrite).normalize")) > 0, "C06-D4", "configured-entries-normalised", p.FnPos(pp), "configured entries are normalised at start", "configured entries are no longer normalised at start")
+		r.Check(len(core.CallsToDeep(pp, "(*filtering.LegacyRewrite).normalize")) > 0, "C06-D4", "configured-entries-normalised", p.FnPos(pp), "configured entries are normalised at start", "configured entries are no longer normalised at start")
 	}
 }
 
